@@ -60,6 +60,11 @@ ColInt    == "col" \in Ops /\ \E i \in DOMAIN pool : \E c \in {1, -1} : CanDo /\
                Same([op |-> "col", t |-> i, c |-> c], [kind |-> "str", val |-> [j \in DOMAIN pool[i] |-> pool[i][j][IF c = 1 THEN 1 ELSE Len(pool[i][j])]]])
 EqChar    == "eq" \in Ops /\ \E i \in DOMAIN pool : \E x \in Symbols : CanDo /\
                Same([op |-> "eq", t |-> i, x |-> x], [kind |-> "bools", val |-> [j \in DOMAIN pool[i] |-> [q \in DOMAIN pool[i][j] |-> pool[i][j][q] = x]]])
+\* str_equal(array, s): which rows spell s (s taken from the rows of the array itself, so that matches occur)
+EqStr     == "streq" \in Ops /\ \E i \in DOMAIN pool : \E s \in {pool[i][j] : j \in DOMAIN pool[i]} : CanDo /\ s # <<>> /\
+               Same([op |-> "streq", t |-> i, s |-> s], [kind |-> "flags", val |-> [j \in DOMAIN pool[i] |-> pool[i][j] = s]])
+\* decoding / converting to a string array gives the rows back, whatever view the array is
+Decode_   == "decode" \in Ops /\ \E i \in DOMAIN pool : CanDo /\ Same([op |-> "decode", t |-> i], [kind |-> "rows", val |-> pool[i]])
 Ravel     == "ravel" \in Ops /\ \E i \in DOMAIN pool : CanDo /\ Same([op |-> "ravel", t |-> i], [kind |-> "str", val |-> Flat(pool[i])])
 \* assignments change the target array only (copies are independent; what views of it show is not prescribed by the list model)
 Fill(r, x) == [q \in DOMAIN r |-> x]
@@ -70,7 +75,7 @@ AssignMask == "setmask" \in Ops /\ \E i \in DOMAIN pool : \E x, y \in Symbols : 
                pool' = [pool EXCEPT ![i] = [j \in DOMAIN @ |-> [q \in DOMAIN @[j] |-> IF @[j][q] = x THEN y ELSE @[j][q]]]]
                /\ prog' = Append(prog, [op |-> "setmask", t |-> i, x |-> x, y |-> y, form |-> fm]) /\ obs' = [kind |-> "array"]
 
-Next == RowSelect \/ ColSelect \/ Concat \/ Copy \/ RowInt \/ ColInt \/ EqChar \/ Ravel \/ AssignRow \/ AssignMask
+Next == RowSelect \/ ColSelect \/ Concat \/ Copy \/ RowInt \/ ColInt \/ EqChar \/ EqStr \/ Decode_ \/ Ravel \/ AssignRow \/ AssignMask
 Spec == Init /\ [][Next]_vars
 
 \* design invariants: shapes are preserved where NumPy preserves them
